@@ -120,6 +120,8 @@ var remoteMenu = [][]rent{
 	{{"f", "rk", true, false, "rv"}},
 	{{"d", "KX", true, false, "z"}},
 	{{"d", "KX", true, true, ""}},
+	// three keys in one DBI (for integer keys: 1, 256 and 77 are in integer order but not in byte order)
+	{{"d", "K1", true, false, "z1"}, {"d", "K2", true, false, "z2"}, {"d", "KX", true, false, "zx"}},
 	// deletion markers that still carry a value (a peer with another schema may send them): the value means nothing
 	{{"d", "K0", true, true, "zombie"}},
 	{{"d", "KX", true, true, "zombie"}},
@@ -223,6 +225,11 @@ func (s *sim) resolveKey(name string) (string, bool) {
 	case "K1":
 		if len(s.c.Keys) > 1 {
 			return string(key(s.c, s.c.Keys[1])), true
+		}
+		return "", false
+	case "K2":
+		if len(s.c.Keys) > 2 {
+			return string(key(s.c, s.c.Keys[2])), true
 		}
 		return "", false
 	case "KX":
